@@ -1,7 +1,7 @@
 (** Extraction of the concurrent step machines and the schedule replayer. *)
 From Coq Require Extraction.
 From Coq Require Import ExtrOcamlBasic.
-From Garr Require Import Conc.Conc Queue.JdkModel Queue.MutexModel Adder.StripedModel Adder.SimpleModel Pure.F64 Pure.Config Breaker.BreakerModel Pool.PoolModel Pool.PoolOptions Extract.Kinds.
+From Garr Require Import Conc.Conc Queue.JdkModel Queue.MutexModel Adder.StripedModel Adder.SimpleModel Pure.F64 Pure.Config Breaker.BreakerModel Pool.PoolModel Pool.PoolOptions Extract.Kinds Extract.Locs.
 Extraction Blacklist List String Int Bool Nat.
 Extraction "conc_model.ml"
   replay replay_step step_thread init
@@ -9,4 +9,4 @@ Extraction "conc_model.ml"
   jdk_adder jdk_f64_adder ainit rc_adder rinit atomic_adder atomic_f64_adder mutex_adder xinit
   breaker binit winit of_bits
   pool pinit upd_choices norm_workers norm_limit
-  view jdk_kind mutexq_kind striped_kind rc_kind atomic_kind mutexadd_kind breaker_kind pool_kind.
+  view jdk_kind mutexq_kind striped_kind rc_kind atomic_kind mutexadd_kind breaker_kind pool_kind striped_loc.
